@@ -881,6 +881,10 @@ func (p *Program) writesThroughPtr(v ssa.Value, d int, seen map[ssa.Value]bool) 
 				if hasAnyPrefix(key, readOnlyCalleePrefixes) {
 					continue
 				}
+				// a *sync.Map handed to a helper that uses it through its methods: as safe as at the top level
+				if strings.HasPrefix(key, "(*sync.Map).") && len(x.Common().Args) > 0 && x.Common().Args[0] == v && p.typeStr(deref(v.Type())) == "sync.Map" {
+					continue
+				}
 				return "", false
 			}
 			if why != "" {
